@@ -46,9 +46,9 @@ CHECKS['C04'] = dict(
    text='18 theorems: integral coefficient 0 is 0 and every multivariate integral term contains the variable, simple_derivative (simple_integral p) = p, is_derive of the integral equals the polynomial for both types (no exponent -1), well-formedness closure, analytical_integral p a b = RInt (eval p) a b for both types, additivity over adjacent intervals and sign change under swapped bounds (also on the returned values)',
    note=COMMON_NOTE, ref='DESIGN.md §5 C04')
 CHECKS['C11'] = dict(
-   technique='Coq proof over any commutative ring (dot = algebraic product for every conforming shape incl. 1x1 and empty dimensions, scalar cases, shape errors, operator forms, associativity/transpose/identity laws) + exhaustive shape-pair correspondence on i64 (exact) and f64 (bit for bit)',
-   text='8 theorems on the flat-buffer record model: c11_conforming, c11_scalar_left/right, c11_shape_error (never a panic on well-formed arrays), c11_operator (four Mul forms = dot or the empty array), c11_scalar_ops, c11_transpose, c11_laws (identity, transpose of a product, full associativity); all 1296 shape pairs in 0..5 x 0..5 x ownership forms x scalar forms run against the Rust code',
-   note='Coq kernel, no axioms; extraction + OCaml driver; Rust harness; Python integer/Fraction oracle', ref='DESIGN.md §5 C11')
+   technique='Coq proof over any commutative ring (dot = algebraic product for every conforming shape incl. 1x1 and empty dimensions, scalar cases, shape errors, operator forms, associativity/transpose/identity laws) AND a floating-point rounding bound for every entry of the binary64 product (Flocq) + exhaustive shape-pair correspondence on i64 (exact) and f64 (bit for bit)',
+   text='11 theorems on the flat-buffer record model: c11_dot_float_error (binary64 instance, all conforming shapes and the three code paths: every entry is within ((1+eps)^(n+1) - 1) * sum|a_ik b_kj| + n (1+eps)^n 2^-1075 of the exact sum when no product or partial sum overflows), c11_dot_float_no_overflow, c11_dot_fl_conforming; c11_conforming, c11_scalar_left/right, c11_shape_error (never a panic on well-formed arrays), c11_operator (four Mul forms = dot or the empty array), c11_scalar_ops, c11_transpose, c11_laws (identity, transpose of a product, full associativity); all 1296 shape pairs in 0..5 x 0..5 x ownership forms x scalar forms run against the Rust code',
+   note='Coq kernel; the ring-level theorems are closed under the global context; the float-level ones use the Reals axioms, FloatAxioms (add_spec, mul_spec, Prim2SF_valid, SF2Prim_Prim2SF, Prim2SF_SF2Prim) and list the PrimFloat/PrimInt63 kernel primitives; Flocq; extraction + OCaml driver; Rust harness; Python integer/Fraction oracle', ref='DESIGN.md §5 C11')
 CHECKS['C12'] = dict(
    technique='Coq refinement proof (flat-buffer state machine refines the plain grid for every operation, lifted to all operation sequences by induction) + exhaustive-depth and long random histories replayed on the real Arr2D<i64>',
    text='5 theorems: c12_inv (length inner = height*width preserved), c12_refine (every operation: same output incl. Err/Panic, abstraction commutes, state unchanged on failure), c12_observe (every observation equals the grid\'s, incl. Display text), c12_histories (all operation sequences), c12_invalid_documented (the failing outputs are exactly the documented ones); sequences to depth 3 (thorough 4) from all shapes 0..3 x 0..3 plus random length-40 histories, full observation compared after every step',
